@@ -109,3 +109,96 @@ func c14CountDefined(p *core.Program, r *core.Report) {
 	}
 	r.Floor("C14/R6 plane-walking functions with a named count result", n, 2)
 }
+
+// c14StrictnessAtDepthZero: rule R7. In the bit-plane comparisons the
+// difference between a strict and an inclusive comparison is decided at the
+// last plane (i == 0 && !allowEquality). With a bit depth of 0 no plane is
+// visited, so a function that takes the strictness flag must consult it, or
+// test the depth, on every path: otherwise "v > 0" and "v >= 0" answer alike
+// for a group whose columns all hold the base value.
+func c14StrictnessAtDepthZero(p *core.Program, r *core.Report) {
+	pk := p.Pkg("")
+	if pk == nil {
+		return
+	}
+	info := pk.TypesInfo
+	n := 0
+	for _, fd := range core.AllFuncDecls(pk) {
+		if fd.Body == nil || core.RecvName(fd) != "fragment" || strings.HasSuffix(p.Fset.Position(fd.Pos()).Filename, "_test.go") {
+			continue
+		}
+		var depthObj, eqObj types.Object
+		for _, fl := range fd.Type.Params.List {
+			for _, nm := range fl.Names {
+				switch nm.Name {
+				case "bitDepth":
+					depthObj = info.Defs[nm]
+				case "allowEquality":
+					eqObj = info.Defs[nm]
+				}
+			}
+		}
+		if depthObj == nil || eqObj == nil {
+			continue
+		}
+		hasLoop := false
+		ast.Inspect(fd.Body, func(m ast.Node) bool {
+			if _, ok := m.(*ast.ForStmt); ok {
+				hasLoop = true
+			}
+			return true
+		})
+		if !hasLoop {
+			continue
+		}
+		n++
+		const bSeen flow.State = 1
+		var bad []string
+		mentions := func(e ast.Node) bool {
+			found := false
+			ast.Inspect(e, func(m ast.Node) bool {
+				if id, ok := m.(*ast.Ident); ok {
+					if o := info.ObjectOf(id); o == depthObj || o == eqObj {
+						found = true
+					}
+				}
+				return true
+			})
+			return found
+		}
+		h := flow.Hooks{Info: info}
+		h.Refine = func(c ast.Expr, taken bool, s flow.State) (flow.State, bool) {
+			if mentions(c) {
+				return s | bSeen, true
+			}
+			return s, true
+		}
+		h.Return = func(ret *ast.ReturnStmt, s flow.State) {
+			if s&bSeen != 0 {
+				return
+			}
+			// error returns do not answer the comparison
+			if ret != nil && len(ret.Results) == 2 {
+				if id, ok := ast.Unparen(ret.Results[0]).(*ast.Ident); ok && id.Name == "nil" {
+					return
+				}
+			}
+			pos := p.Pos(fd.End())
+			if ret != nil {
+				pos = p.Pos(ret.Pos())
+			}
+			bad = append(bad, pos)
+		}
+		it := flow.Run(h, fd.Body, 0)
+		construct := core.FuncName(fd) + ": strictness decided when no plane is visited"
+		switch {
+		case it.Unsupported != "":
+			r.Undecide("R7", construct, p.Pos(fd.Pos()), it.Unsupported)
+		case len(bad) > 0:
+			r.Violate("R7", construct, p.Pos(fd.Pos()), "answers at "+strings.Join(dedupe(bad), ", ")+" on a path that neither consulted allowEquality nor tested the bit depth (the plane loop ran no iteration): at bit depth 0 the strict and the inclusive comparison return the same columns, so Row(v > base) lists columns holding exactly the base value")
+		default:
+			r.HoldAt("R7", construct, p.Pos(fd.Pos()), "every answering path consulted the strictness flag or tested the depth")
+		}
+	}
+	r.Floor("C14/R7 plane-walking comparisons with a strictness flag", n, 2)
+}
